@@ -214,8 +214,11 @@ def compare_rules(ctx: Ctx, fi) -> None:
             loop_for = next(a for a in ancestors(c) if isinstance(a, ast.For) and isinstance(a.target, ast.Name) and a.target.id == var)
             cand = src(call_method(c)[0])
         blk = next((getattr(loop_for._parent, f) for f in ("body", "orelse") if loop_for in getattr(loop_for._parent, f, [])), [])
-        fb = [x for x in blk[blk.index(loop_for) + 1:] if isinstance(x, ast.If)
-              and any(isinstance(y, ast.Call) and call_method(y)[1] == "append" and src(call_method(y)[0]) == cand for z in x.body for y in ast.walk(z))]
+        def _fills(z):
+            # `cand.append(start)` or `cand = [start]`
+            return any(isinstance(y, ast.Call) and call_method(y)[1] == "append" and src(call_method(y)[0]) == cand for y in ast.walk(z)) \
+                or (isinstance(z, ast.Assign) and len(z.targets) == 1 and src(z.targets[0]) == cand and isinstance(z.value, ast.List) and len(z.value.elts) == 1)
+        fb = [x for x in blk[blk.index(loop_for) + 1:] if isinstance(x, ast.If) and any(_fills(z) for z in x.body)]
         okf = False
         whyf = "no fallback found"
         if fb:
@@ -234,8 +237,11 @@ def compare_rules(ctx: Ctx, fi) -> None:
             elif isinstance(t, ast.Name) and t.id == cand:
                 empty = False
             others = [a for a in (relation(g.test, nz)[0].atoms() if relation(g.test, nz) else []) if a != var]
-            app = next(y for z in fb[0].body for y in ast.walk(z) if isinstance(y, ast.Call) and call_method(y)[1] == "append")
-            okf = empty is not None and (empty != neg) and len(others) == 1 and app.args and src(app.args[0]) == others[0] and not fb[0].orelse
+            app = next((y for z in fb[0].body for y in ast.walk(z) if isinstance(y, ast.Call) and call_method(y)[1] == "append"), None)
+            filled = app.args[0] if app is not None and app.args else next((z.value.elts[0] for z in fb[0].body if isinstance(z, ast.Assign) and isinstance(z.value, ast.List)
+                                                                          and len(z.value.elts) == 1), None)
+            okf = empty is not None and (empty != neg) and len(others) == 1 and filled is not None and src(filled) == others[0] and not fb[0].orelse
+            app = app if app is not None else fb[0].body[0]
             whyf = f"`{short(fb[0].test)}` -> `{short(app)}`"
         ctx.check(okf, "ZERO", f"{FN}: when no end candidate is left the note's own start is used ({whyf})", function=FN,
                   construct="fallback for an empty end-candidate list is missing, inverted, or not the note's start",
